@@ -166,7 +166,20 @@ def _prefixed(coef, exp, pv, sp):
         return _fail(f"R.r: gave {v}, package has {param_value(got['r'])}")
     E = h.ExternalModule(name="E", port_list=[h.Port(name="a"), h.Port(name="b")], paramtype=dict)
     inst, got = _inst_params(_two_port(E(dict(p=v))))
-    return _prefixed_ok(got["p"], v) or _fail(f"ext.p: gave {v}, package has {param_value(got['p'])}")
+    if not _prefixed_ok(got["p"], v):
+        return _fail(f"ext.p: gave {v}, package has {param_value(got['p'])}")
+    # the same VALUE written differently, exported later in the same process, keeps ITS digits and prefix
+    others = [Prefixed(number=v.number.scaleb(0) * 1, prefix=v.prefix)]
+    k = PL.index(pv)
+    if k > 0:
+        d = pv - PL[k - 1]
+        others.append(Prefixed(number=v.number.scaleb(d), prefix=BYPOW[PL[k - 1]]))
+    others.append(Prefixed(number=Decimal(str(v.number) + ("0" if "." in str(v.number) and "E" not in str(v.number) else ".0" if "E" not in str(v.number) else "")) if "E" not in str(v.number) else v.number, prefix=v.prefix))
+    for o in others:
+        inst, got = _inst_params(_two_port(h.primitives.R(r=o)))
+        if not _prefixed_ok(got["r"], o):
+            return _fail(f"R.r: gave {o} (after exporting the equal value {v}), package has {param_value(got['r'])}")
+    return True
 
 
 ALPHA = ["0", "1", "5", ".", "e", "E", "-", "+", "_", " ", "a", "n", "x"]
